@@ -31,7 +31,7 @@ def shards(tier):
 def required_classes(tier):
     out = []
     for mk in CG.MODKEYS:
-        out += ["%s:%s" % (mk, c) for c in ("bilinear", "additive-P", "additive-Q", "negation", "order", "infinity", "offcurve")]
+        out += ["%s:%s" % (mk, c) for c in ("bilinear", "additive-P", "additive-Q", "negation", "order", "infinity", "offcurve", "offcurve-vs-infinity")]
     out += ["opt:rescaled", "scalar:0", "scalar:r-1", "scalar:r+1", "scalar:random"]
     return out
 
@@ -131,6 +131,16 @@ def instance(rec, modkey, rng, heavy, base_cache):
         rec.case("%s:offcurve" % modkey, ("off", modkey, Qx, Px), sample={"impl": modkey, "offcurve": what})
         st, v = call(pm.pairing, CG.to_lib(modkey, Qx, 2, rng), CG.to_lib(modkey, Px, 1, rng))
         chk("B-pair.offcurve", st == "exc", "offcurve", "pairing accepted an argument that is not on its curve (%s)" % what, Q=Qx, P=Px)
+    # ... also when the OTHER argument is the point at infinity (a short-circuit must not come before the curve check)
+    for Qx, Px, what in ((Q0, Pb, "P.y+1"), (Qb, P0, "Q.y+1")):
+        for rep in (CG.INF_REPS if opt else [None]):
+            rec.case("%s:offcurve-vs-infinity" % modkey, ("offinf", modkey, what, rep), sample={"impl": modkey, "offcurve": what, "other argument": "infinity " + str(rep)})
+            if what.startswith("P"):
+                a1, a2 = CG.to_lib(modkey, None, 2, rng, inf_rep=rep), CG.to_lib(modkey, Px, 1, rng)
+            else:
+                a1, a2 = CG.to_lib(modkey, Qx, 2, rng), CG.to_lib(modkey, None, 1, rng, inf_rep=rep)
+            st, v = call(pm.pairing, a1, a2)
+            chk("B-pair.offcurve", st == "exc", "offcurve", "pairing accepted an off-curve argument (%s) because the other argument is infinity" % what, Q=Qx, P=Px)
     if not heavy:
         for cls in ("additive-P", "additive-Q", "negation"):
             rec.case("%s:%s" % (modkey, cls), None, nontrivial=False)
